@@ -316,6 +316,12 @@ def rand_leaf(r, rich=False):
         name = r.choice(FUNCS)
         n = r.choice([1, 1, 2, 3])
         args = [("leaf",) + r.choice(LEAF_POOL[:9]) for _ in range(n)]
+        if r.random() < 0.35:
+            # a computed parameter or a nested call: the grammar takes it only inside its own parentheses - upper((lower([name])))
+            i = r.randrange(n)
+            inner = ("call", r.choice(FUNCS), [("leaf",) + r.choice(LEAF_POOL[:9])]) if r.random() < 0.5 else \
+                ("bin", r.choice(["+", "-", "*"]), ("leaf",) + r.choice(LEAF_POOL[:7]), ("leaf",) + r.choice(LEAF_POOL[:7]))
+            args[i] = ("grp", inner)
         return ("call", name, args)
     return ("leaf",) + r.choice(LEAF_POOL2 if rich else LEAF_POOL)
 
